@@ -40,7 +40,7 @@ type c06Kind struct {
 
 func c06Kinds() []c06Kind {
 	var out []c06Kind
-	for _, n := range []string{"secret", "login", "create", "create-orphan", "create-batch"} {
+	for _, n := range []string{"secret", "login", "create", "create-orphan", "create-batch", "create-root"} {
 		out = append(out, c06Kind{n, false})
 	}
 	for _, n := range []string{"secret", "login", "create"} {
@@ -81,6 +81,11 @@ func c06Do(s *Sys, tok string, k c06Kind) c06Out {
 		req.Operation, req.Path, req.Data = logical.UpdateOperation, "auth/ra/login", map[string]interface{}{}
 	case "create":
 		req.Operation, req.Path, req.Data = logical.UpdateOperation, "auth/token/create", map[string]interface{}{"policies": []string{"default"}, "ttl": "1h"}
+	case "create-root":
+		// a child of the root token without policies or TTL: inherits [root], never expires
+		// (token lookup does not consult the expiration manager for such tokens)
+		req.ClientToken = s.Root
+		req.Operation, req.Path, req.Data = logical.UpdateOperation, "auth/token/create", map[string]interface{}{}
 	case "create-orphan":
 		req.Operation, req.Path, req.Data = logical.UpdateOperation, "auth/token/create-orphan", map[string]interface{}{"policies": []string{"default"}, "ttl": "1h"}
 	case "create-batch":
